@@ -73,6 +73,16 @@ def projects(tier):
     for fns in (["chk"], ["inc", "invx"], ["stp", "aft"], ["prv", "inc"]):
         for d in ((1, 2) if tier == "quick" else (1, 2, 3)):
             out.append({"desc": {"targets": [fns], "invariants": [[0, "s", "ne", 7], [0, "s", "ne", 5], [0, "s", "ne", 3], [0, "s", "ne", 4], [0, "t", "ne", 9]], "filters": None}, "depth": d})
+    for d in ((2,) if tier == "quick" else (1, 2, 3)):
+        out.append({"desc": {"targets": [["setw", "chain"]], "invariants": [[0, "t", "ne", 1], [0, "t", "ne", 7], [0, "t", "ne", 5]], "filters": None}, "depth": d})
+    # the stored sender of an earlier call: the sender filters still hold for it when a later call / the invariant looks at it
+    for flt in ({"targetSenders": [invgen.S1]}, {"targetSenders": [invgen.S2]}, {"targetSenders": [invgen.S1, invgen.S2]}, {"excludeSenders": [invgen.S1]},
+                {"excludeSenders": [invgen.S1, invgen.S2]}, {"targetSenders": [invgen.S1, invgen.S2], "excludeSenders": [invgen.S2]}):
+        full = {"targetSenders": [], "excludeSenders": [], "targetContracts": [], "excludeContracts": [], "targetSelectors": [], "excludeSelectors": []}
+        full.update(flt)
+        for fns in (["claim"], ["claim", "inc"]):
+            for d in (1, 2):
+                out.append({"desc": {"targets": [fns], "invariants": [[0, "t", "ne", invgen.S1], [0, "t", "ne", invgen.S2], [0, "t", "ne", invgen.DEFAULT_SENDER], [0, "s", "ne", 2]], "filters": full}, "depth": d})
     # two targets, filters: every combination over a 2-element pool
     two = [["inc", "own"], ["set", "step"]]
     inv2 = [[0, "s", "ne", 2], [0, "s", "ne", 7], [1, "s", "ne", 5], [1, "s", "ne", 3], [0, "s", "le", 1]]
@@ -166,27 +176,38 @@ def instances(ex, addrs_halmos, limit=4000):
             doms.append([invgen.S1, invgen.S2, invgen.DEFAULT_SENDER])
         else:
             doms.append(SYM_DOMAIN[:-3])
-    for combo in itertools.product(*doms):
-        n += 1
-        if n > limit:
-            break
-        sub = [(allsyms[nm], z3.BitVecVal(v, allsyms[nm].size())) for nm, v in zip(names, combo)]
-        ok = True
-        for c in relevant:
-            g = z3.simplify(z3.substitute(c, *sub)) if sub else z3.simplify(c)
-            if z3.is_false(g):
-                ok = False
-                break
-        if not ok:
-            continue
-        vals = []
-        for t in terms:
-            g = z3.simplify(z3.substitute(t, *sub)) if (sub and z3.is_expr(t)) else (z3.simplify(t) if z3.is_expr(t) else t)
-            if z3.is_bv_value(g):
-                vals.append(g.as_long())
-            else:
-                vals.append(None)
-        out.add(tuple(vals))
+    # depth-first over the symbols in order, substituting one at a time and pruning as soon as a condition has become false: complete
+    # over the product of the domains (chains of equalities cut it down to a few hundred leaves), no cap on the prefix explored
+    order = sorted(range(len(names)), key=lambda i: len(doms[i]))
+
+    def dfs(pos, conds_now, terms_now):
+        nonlocal n
+        if pos == len(order):
+            n += 1
+            vals = []
+            for g in terms_now:
+                g = z3.simplify(g) if z3.is_expr(g) else g
+                vals.append(g.as_long() if z3.is_expr(g) and z3.is_bv_value(g) else (g if isinstance(g, int) else None))
+            out.add(tuple(vals))
+            return
+        i = order[pos]
+        sym = allsyms[names[i]]
+        for v in doms[i]:
+            sub = (sym, z3.BitVecVal(v, sym.size()))
+            nxt = []
+            ok = True
+            for c in conds_now:
+                g = z3.simplify(z3.substitute(c, sub))
+                if z3.is_false(g):
+                    ok = False
+                    break
+                if not z3.is_true(g):
+                    nxt.append(g)
+            if not ok:
+                continue
+            dfs(pos + 1, nxt, [z3.substitute(t, sub) if z3.is_expr(t) else t for t in terms_now])
+
+    dfs(0, list(relevant), list(terms))
     return out
 
 
